@@ -234,6 +234,11 @@ def gen_callable(r, idx, profile='mixed'):
             access = [('cls', cls, name), ('inst', cls, name)]
         src = cdeco + f'class {cls}:\n' + m
         twin = f'class {cls}:\n' + tm
+        if kind not in ('bound_direct', 'bound_rk') and r.random() < 0.1:
+            # the class is defined inside a function (its __qualname__ contains '<locals>') and then bound at module level
+            ind = lambda t: ''.join('    ' + l + '\n' for l in t.splitlines())
+            src = f'def _mk{idx}():\n' + ind(src) + f'    return {cls}\n{cls} = _mk{idx}()\n'
+            twin = f'def _mk{idx}():\n' + ind(twin) + f'    return {cls}\n{cls} = _mk{idx}()\n'
         if kind in ('bound_direct', 'bound_rk'):
             deco = 'pedantic' if kind == 'bound_direct' else 'require_kwargs'
             src += f'_o{idx} = {cls}()\nb_{name} = {deco}(_o{idx}.{name})\n'
